@@ -1,7 +1,8 @@
 /-
   C03 — rebalancing reaches the requested target allocation.
 -/
-import TradingVerif.Lemmas.Valuation
+import TradingVerif.Lemmas.Reach
+import Mathlib.Algebra.Order.Field.Rat
 set_option linter.unusedSectionVars false
 set_option linter.unusedVariables false
 namespace TV
@@ -111,6 +112,275 @@ theorem targeted_entry (w : World K) (b : Broker K) (tgt : List (Key × Option K
 theorem weights_target_value (wt nlv p mult : K) (hp : p ≠ 0) (hm : mult ≠ 0) :
     (wt * nlv / p / mult) * mult * p = wt * nlv := by
   field_simp
+
+/-! ### end to end: what a successful rebalance leaves behind -/
+
+/-- executing the trades `make_trades` built (no threshold, fractional quantities) for the absolute imbalance
+    against `tgt`: every targeted non-cash contract ends at its target quantity, every other non-cash
+    contract ends flat -/
+theorem exec_reaches (w : World K) (b : Broker K) (nlv : K) (r : Rebal K) (alloc : List (Key × K))
+    (tgt : List (Key × Option K)) (ts : List (Trade K))
+    (hf : r.fractional = true) (hm : r.margin = 0)
+    (hfresh : ∀ k, k ∉ b.held → b.pos k = 0) (hnd : b.held.Nodup) (htn : (tgt.map (·.1)).Nodup)
+    (hsome : ∀ kv ∈ imbalanceOf w b tgt true, kv.2.isSome = true)
+    (h : tradesFor w b nlv r alloc (imbalanceOf w b tgt true) = .ok ts)
+    (hs : (ts.foldl (transact w) b).snapped = false) (k : Key) (hc : (w.spec k).isCash = false) :
+    (∀ q, (k, some q) ∈ tgt → (ts.foldl (transact w) b).pos k = q) ∧
+    (k ∉ tgt.map (·.1) → (ts.foldl (transact w) b).pos k = 0) := by
+  obtain ⟨hmap, _⟩ := tradesFor_frac w b nlv r alloc hf hm _ ts h
+  have hkeys : ts.map (·.key) = (imbalanceOf w b tgt true).map (·.1) := by
+    have := congrArg (List.map Prod.fst) hmap
+    simpa [List.map_map, Function.comp_def] using this
+  have hn : (ts.map (·.key)).Nodup := by rw [hkeys]; exact imbalanceOf_nodup w b tgt htn hnd
+  -- (A) a traded contract moves by its trade, (B) an untraded contract does not move
+  have hA : ∀ t ∈ ts, (ts.foldl (transact w) b).pos t.key = b.pos t.key + t.qty := by
+    intro t ht
+    rw [foldl_transact_pos w ts hn b hs t.key, find_key_of_mem (fun u : Trade K => u.key) ts hn t ht]
+    rfl
+  have hB : (∀ t ∈ ts, t.key ≠ k) → (ts.foldl (transact w) b).pos k = b.pos k := by
+    intro hno
+    rw [foldl_transact_pos w ts hn b hs k]
+    have : ts.find? (fun t => t.key = k) = none := by
+      rw [List.find?_eq_none]; intro t ht; simpa using hno t ht
+    rw [this]; simp
+  -- membership transfers between the trade list and the imbalance
+  have hto : ∀ kv ∈ imbalanceOf w b tgt true, ∃ t ∈ ts, t.key = kv.1 ∧ t.qty = kv.2.getD 0 := by
+    intro kv hkv
+    have : (kv.1, kv.2.getD 0) ∈ ts.map (fun t => (t.key, t.qty)) := by
+      rw [hmap]; exact List.mem_map.mpr ⟨kv, hkv, rfl⟩
+    obtain ⟨t, ht, e⟩ := List.mem_map.mp this
+    simp only [Prod.mk.injEq] at e
+    exact ⟨t, ht, e.1, e.2⟩
+  have hfrom : ∀ t ∈ ts, ∃ kv ∈ imbalanceOf w b tgt true, kv.1 = t.key := by
+    intro t ht
+    have : t.key ∈ (imbalanceOf w b tgt true).map (·.1) := by
+      rw [← hkeys]; exact List.mem_map.mpr ⟨t, ht, rfl⟩
+    obtain ⟨kv, hkv, e⟩ := List.mem_map.mp this
+    exact ⟨kv, hkv, e⟩
+  -- a contract outside `heldNZ` that is not cash has a zero position
+  have hzero : k ∉ heldNZ w b → b.pos k = 0 := by
+    intro hnz
+    by_contra h0
+    apply hnz
+    rw [mem_heldNZ]
+    refine ⟨?_, hc, h0⟩
+    by_contra hnh
+    exact h0 (hfresh k hnh)
+  constructor
+  · intro q hq
+    rcases targeted_entry w b tgt k q hq hc (fun hnh => hfresh k hnh) with hin | hz
+    · obtain ⟨t, ht, hk, hqty⟩ := hto _ hin
+      simp only [Option.getD_some] at hqty hk
+      rw [← hk, hA t ht, hqty, hk]; ring
+    · -- already at the target: no trade for this contract
+      have hno : ∀ t ∈ ts, t.key ≠ k := by
+        intro t ht hk
+        obtain ⟨kv, hkv, e⟩ := hfrom t ht
+        obtain ⟨hne, hcase⟩ := mem_imbalanceOf w b tgt kv hkv
+        have hk1 : kv.1 = k := e.trans hk
+        rcases hcase with ⟨v, hv, hval⟩ | ⟨_, hnot, _⟩
+        · -- the keys of the target are pairwise different, so `v = some q`
+          have hvq : v = some q := by
+            rw [hk1] at hv
+            by_contra hne'
+            exact pair_unique tgt htn k v (some q) hv hq hne'
+          apply hne
+          rw [hval, hvq, hk1]
+          simp only [Option.map_some, Option.some.injEq]
+          split_ifs with hh
+          · exact hz
+          · rw [hzero hh] at hz; linarith
+        · exact hnot (by rw [hk1]; exact List.mem_map.mpr ⟨(k, some q), hq, rfl⟩)
+      rw [hB hno]; linarith
+  · intro hout
+    by_cases hnz : k ∈ heldNZ w b
+    · have hin := untargeted_closed_entry w b tgt k ((mem_heldNZ w b k).mp hnz).1 hc
+        ((mem_heldNZ w b k).mp hnz).2.2 hout
+      obtain ⟨t, ht, hk, hqty⟩ := hto _ hin
+      simp only [Option.getD_some] at hqty hk
+      rw [← hk, hA t ht, hqty, hk]; ring
+    · have hno : ∀ t ∈ ts, t.key ≠ k := by
+        intro t ht hk
+        obtain ⟨kv, hkv, e⟩ := hfrom t ht
+        obtain ⟨_, hcase⟩ := mem_imbalanceOf w b tgt kv hkv
+        have hk1 : kv.1 = k := e.trans hk
+        rcases hcase with ⟨v, hv, _⟩ | ⟨hin, _, _⟩
+        · exact hout (by rw [← hk1]; exact List.mem_map.mpr ⟨(kv.1, v), hv, rfl⟩)
+        · exact hnz (by rw [← hk1]; exact hin)
+      rw [hB hno, hzero hnz]
+
+/-- a successful rebalance, taken apart: the trades were built on the marked state after the accrual, at the
+    NLV that state reports, and the final positions are those after executing them -/
+theorem rebalance_ok_decomp (pw : K → K → K) (w : World K) (r : Rebal K) (b : Broker K)
+    (hok : (rebalance pw w r b).2 = .ok ()) :
+    ∃ nlvPre trades,
+      (netLiq w true (accrue pw w r.time true b).1).2 = .ok nlvPre ∧
+      makeTrades w (markAll w (accrue pw w r.time true b).1) nlvPre r = .ok trades ∧
+      (rebalance pw w r b).1 =
+        { markAll w (trades.foldl (transact w) (markAll w (accrue pw w r.time true b).1)) with
+          record := (rebalance pw w r b).1.record } := by
+  have hn := netLiq_fst w true (accrue pw w r.time true b).1
+  unfold rebalance at hok ⊢
+  cases hacc : accrue pw w r.time true b with
+  | mk b1 res =>
+    rw [hacc] at hok hn
+    cases res with
+    | error e => simp at hok
+    | ok interest =>
+      simp only at hok hn ⊢
+      cases hnl : netLiq w true b1 with
+      | mk b2 res2 =>
+        rw [hnl] at hok hn
+        cases res2 with
+        | error e => simp at hok
+        | ok nlvPre =>
+          simp only at hok hn ⊢
+          subst hn
+          cases hmt : makeTrades w (markAll w b1) nlvPre r with
+          | error e => rw [hmt] at hok; simp at hok
+          | ok trades =>
+            simp only
+            exact ⟨nlvPre, trades, rfl, hmt, rebalanceExec_shape w r interest nlvPre trades _⟩
+
+/-- **A successful rebalance reaches its target** (absolute target, fractional quantities, no threshold, on
+    a history that never hit the epsilon snap): every non-cash contract of the cleaned target ends at the
+    quantity `make_trades` asked for, and every other non-cash contract ends flat. `tgt` is the target in
+    contracts exactly as `make_trades` computes it (for a weight target: weight × pre-trade NLV / execution
+    quote / multiplier, at the NLV of the marked state after the accrual). -/
+theorem rebalance_reaches (pw : K → K → K) (w : World K) (D : K) (r : Rebal K) (b : Broker K) (hinv : Inv w D b)
+    (hok : (rebalance pw w r b).2 = .ok ()) (hs : (rebalance pw w r b).1.snapped = false)
+    (hf : r.fractional = true) (hm : r.margin = 0) (ha : r.absolute = true)
+    (htn : ((cleanAlloc w r.target).map (·.1)).Nodup) :
+    ∃ nlvPre, (netLiq w true (accrue pw w r.time true b).1).2 = .ok nlvPre ∧
+      let alloc := cleanAlloc w r.target
+      let tgt : List (Key × Option K) :=
+        if r.byWeight then toNrContracts w (markAll w (accrue pw w r.time true b).1) nlvPre alloc
+        else alloc.map fun kv => (kv.1, some kv.2)
+      (∀ kv ∈ tgt, kv.2.isSome = true) ∧
+      ∀ k, (w.spec k).isCash = false →
+        (∀ q, (k, some q) ∈ tgt → (rebalance pw w r b).1.pos k = q) ∧
+        (k ∉ alloc.map (·.1) → (rebalance pw w r b).1.pos k = 0) := by
+  obtain ⟨nlvPre, trades, hnl, hmt, hshape⟩ := rebalance_ok_decomp pw w r b hok
+  refine ⟨nlvPre, hnl, ?_⟩
+  intro alloc tgt
+  set b2 := markAll w (accrue pw w r.time true b).1 with hb2
+  have hinv2 : Inv w D b2 := markAll_inv w D _ (accrue_inv pw w D r.time true b hinv)
+  have hpos : (rebalance pw w r b).1.pos = (trades.foldl (transact w) b2).pos := by
+    rw [hshape]; simp only; exact markAll_pos w _
+  have hsn : (trades.foldl (transact w) b2).snapped = false := by
+    rw [hshape] at hs; simp only at hs; rwa [markAll_snapped] at hs
+  have hkeys : tgt.map (·.1) = alloc.map (·.1) := by
+    show (if r.byWeight then toNrContracts w b2 nlvPre alloc else alloc.map fun kv => (kv.1, some kv.2)).map (·.1) = _
+    split_ifs
+    · unfold toNrContracts; rw [List.map_map]; apply List.map_congr_left; intro x _; rfl
+    · rw [List.map_map]; apply List.map_congr_left; intro x _; rfl
+  -- what `makeTrades` did
+  unfold makeTrades at hmt
+  simp only [ha] at hmt
+  have hmt' : ¬ ((imbalanceOf w b2 tgt true).any (fun kv => kv.2.isNone) = true) ∧
+      tradesFor w b2 nlvPre r alloc (imbalanceOf w b2 tgt true) = .ok trades := by
+    by_cases hany : (imbalanceOf w b2 tgt true).any (fun kv => kv.2.isNone) = true
+    · exfalso
+      have : (Except.error Err.unexpectedSign : Except Err (List (Trade K))) = .ok trades := by
+        rw [← hmt]; exact (if_pos hany).symm
+      cases this
+    · refine ⟨hany, ?_⟩
+      rw [← hmt]; exact (if_neg hany).symm
+  obtain ⟨hany, htf⟩ := hmt'
+  have hsome : ∀ kv ∈ imbalanceOf w b2 tgt true, kv.2.isSome = true := by
+    intro kv hkv
+    cases hv : kv.2 with
+    | some v => rfl
+    | none =>
+        exfalso; apply hany
+        rw [List.any_eq_true]
+        exact ⟨kv, hkv, by simp [hv]⟩
+  constructor
+  · -- a missing target quantity (no execution-side quote) would have survived into the imbalance
+    intro kv hkv
+    cases hv : kv.2 with
+    | some v => rfl
+    | none =>
+        exfalso
+        have hin : (kv.1, (none : Option K)) ∈ imbalanceOf w b2 tgt true := by
+          rw [imbalanceOf_abs, List.mem_filter]
+          refine ⟨List.mem_append_left _ (List.mem_map.mpr ⟨kv, hkv, ?_⟩), by simp⟩
+          simp [hv]
+        have := hsome _ hin
+        simp at this
+  · intro k hc
+    have hr := exec_reaches w b2 nlvPre r alloc tgt trades hf hm (fun k hk => (hinv2.fresh k hk).1)
+      hinv2.nodup (by rw [hkeys]; exact htn) hsome htf hsn k hc
+    rw [hpos]
+    exact ⟨hr.1, fun hout => hr.2 (by rw [hkeys]; exact hout)⟩
+
+/-- **Target in contracts**: after a successful rebalance towards `{k ↦ q}` the account holds exactly `q` of
+    every targeted non-cash contract and nothing of any other -/
+theorem rebalance_reaches_contracts (pw : K → K → K) (w : World K) (D : K) (r : Rebal K) (b : Broker K)
+    (hinv : Inv w D b) (hok : (rebalance pw w r b).2 = .ok ()) (hs : (rebalance pw w r b).1.snapped = false)
+    (hf : r.fractional = true) (hm : r.margin = 0) (ha : r.absolute = true) (hw : r.byWeight = false)
+    (htn : ((cleanAlloc w r.target).map (·.1)).Nodup) (k : Key) (hc : (w.spec k).isCash = false) :
+    (∀ q, (k, q) ∈ cleanAlloc w r.target → (rebalance pw w r b).1.pos k = q) ∧
+    (k ∉ (cleanAlloc w r.target).map (·.1) → (rebalance pw w r b).1.pos k = 0) := by
+  obtain ⟨nlvPre, _, h⟩ := rebalance_reaches pw w D r b hinv hok hs hf hm ha htn
+  simp only [hw, Bool.false_eq_true, if_false] at h
+  obtain ⟨h1, h2⟩ := h.2 k hc
+  exact ⟨fun q hq => h1 q (List.mem_map.mpr ⟨(k, q), hq, rfl⟩), h2⟩
+
+/-- **Target in weights**: after a successful rebalance towards `{k ↦ wt}` every targeted non-cash contract
+    has an execution-side quote `p` and the position is worth, at that quote, exactly `wt ×` the pre-trade
+    NLV (the NLV of the account after the interest accrual); untargeted contracts end flat -/
+theorem rebalance_reaches_weights (pw : K → K → K) (w : World K) (D : K) (r : Rebal K) (b : Broker K)
+    (hinv : Inv w D b) (hok : (rebalance pw w r b).2 = .ok ()) (hs : (rebalance pw w r b).1.snapped = false)
+    (hf : r.fractional = true) (hm : r.margin = 0) (ha : r.absolute = true) (hw : r.byWeight = true)
+    (htn : ((cleanAlloc w r.target).map (·.1)).Nodup) (hmult : ∀ k, (w.spec k).mult ≠ 0) :
+    ∃ nlvPre, (netLiq w true (accrue pw w r.time true b).1).2 = .ok nlvPre ∧
+      ∀ k, (w.spec k).isCash = false →
+        (∀ wt, (k, wt) ∈ cleanAlloc w r.target →
+          ∃ p, (b.ex.books k).acq (sgn wt) = some p ∧
+            (p ≠ 0 → (rebalance pw w r b).1.pos k * (w.spec k).mult * p = wt * nlvPre)) ∧
+        (k ∉ (cleanAlloc w r.target).map (·.1) → (rebalance pw w r b).1.pos k = 0) := by
+  obtain ⟨nlvPre, hnl, h⟩ := rebalance_reaches pw w D r b hinv hok hs hf hm ha htn
+  refine ⟨nlvPre, hnl, ?_⟩
+  simp only [hw, if_true] at h
+  intro k hc
+  obtain ⟨h1, h2⟩ := h.2 k hc
+  refine ⟨?_, h2⟩
+  intro wt hwt
+  have hex : (markAll w (accrue pw w r.time true b).1).ex = b.ex := by
+    rw [markAll_ex, (accrue_frame3 pw w r.time true b).2.2]
+  have hmem : (k, ((b.ex.books k).acq (sgn wt)).map fun p => wt * nlvPre / p / (w.spec k).mult) ∈
+      toNrContracts w (markAll w (accrue pw w r.time true b).1) nlvPre (cleanAlloc w r.target) := by
+    unfold toNrContracts
+    rw [hex]
+    exact List.mem_map.mpr ⟨(k, wt), hwt, rfl⟩
+  have hsome := h.1 _ hmem
+  cases hp : (b.ex.books k).acq (sgn wt) with
+  | none => rw [hp] at hsome; simp at hsome
+  | some p =>
+      refine ⟨p, rfl, fun hp0 => ?_⟩
+      rw [hp] at hmem
+      rw [h1 _ hmem]
+      exact weights_target_value wt nlvPre p _ hp0 (hmult k)
+
+/-! ### the premises are satisfiable: a concrete rebalance at `ℚ` -/
+section NonVacuity
+local instance : HasTrunc ℚ := ⟨fun q => ((q.num.tdiv q.den : Int) : ℚ)⟩
+private def wEx : World ℚ :=
+  { spec := fun _ => { mult := 1, cashReq := 1, mr := 0 }, fixed := 0, prop := 0, markup := 0, rateKey := "R", eps := 0 }
+private def bEx : Broker ℚ :=
+  { Broker.init 100 with
+    ex := (({} : Exchange ℚ).step (.quote "A" 0 (some 10) (some 10))).step (.quote "R" 0 (some 0) (some 0)) }
+private def rEx : Rebal ℚ := { time := 0, byWeight := false, margin := 0, target := [("A", 5)] }
+
+/-- a state and a request that meet every hypothesis of `rebalance_reaches_contracts`, with the conclusion
+    evaluated independently by the kernel -/
+example : (rebalance (fun _ _ => 1) wEx rEx bEx).1.pos "A" = 5 := by
+  have h := rebalance_reaches_contracts (fun _ _ => 1) wEx 100 rEx bEx (inv_ex wEx 100 _ _ (inv_init wEx 100))
+    (by decide +kernel) (by decide +kernel) rfl rfl rfl rfl (by decide +kernel) "A" rfl
+  exact h.1 5 (by decide +kernel)
+example : (rebalance (fun _ _ => 1) wEx rEx bEx).1.pos "A" = 5 := by decide +kernel
+end NonVacuity
 
 /-- **Known finding K1** (the excluded point of `transact_reaches`): with the broker's epsilon, a trade that
     leaves a position smaller than epsilon leaves 0 instead — the target is not reached. -/
